@@ -1,12 +1,14 @@
 (* C15 entry point of the model runner (extracted; evaluated by vm_compute in the cross-check):
    0 = join, 1 = join_template (same state machine, one oracle bit pair per template),
-   2 = k8s MultilineAction, 3 = k8s, flush-on-time-out clause (byte conservation). *)
+   2 = k8s MultilineAction, 3 = k8s, flush-on-time-out clause (byte conservation);
+   4, 5 = which 2 run by the harness with allowed_pod_labels / allowed_node_labels set (label fields
+   are not modelled: same sub-model, the harness checks the label fields itself). *)
 From Verif Require Import Base.Sx Base.GoSem Model.Join Model.K8sMultiline.
 
 Definition c15_entry (which : Z) (case obs : sx) : verdict :=
   match which with
   | 0 | 1 => c15_join_run case obs
-  | 2 => c15_k8s_run case obs
+  | 2 | 4 | 5 => c15_k8s_run case obs
   | 3 => c15_k8s_flush_run case obs
   | _ => BadCase
   end.
